@@ -28,6 +28,9 @@ func presets() []scenarioOpts {
 		// the storage script (directed.go, storageScript): first replica with, then without the snapshot tree; the third one is restarted
 		{NVals: 1, Powers: []int64{20}, Galaxias: "never", Heights: scriptHeights, Replicas: four, HandOnly: true, Long: storageScript()},
 		{NVals: 2, Powers: []int64{20, 20}, Galaxias: "genesis", Heights: scriptHeights, Replicas: []repCfg{all[1], all[6], all[7], all[3]}, HandOnly: true, Long: storageScript()},
+		// the creation script (creations.go, creationScript): failed creations of every kind onto funded addresses, used in later blocks
+		{NVals: 1, Powers: []int64{20}, Galaxias: "never", Heights: creationHeights, Replicas: four, HandOnly: true, Forge: creationScript()},
+		{NVals: 2, Powers: []int64{20, 20}, Galaxias: "genesis", Heights: creationHeights, Replicas: []repCfg{all[1], all[6], all[7], all[3]}, Forge: creationScript(), Reopen: true},
 		// validator reports at most heights: equal powers (as in the shipped genesis files), two levels, mixed
 		{NVals: 4, Powers: []int64{20, 20, 20, 20}, Galaxias: "never", Heights: 9, Replicas: four, ValHook: true, ValDensity: 10},
 		{NVals: 5, Powers: []int64{20, 20, 20, 30, 30}, Galaxias: "genesis", Heights: 10, Replicas: four, ValHook: true, ValDensity: 10, HandOnly: true},
